@@ -14,6 +14,13 @@ _OPCODE_NAME_MAP are evaluated by Python itself):
         basic encoding -> (signed?, width) with width 0 = LEB128 and width -1 = target address
         (the one entry whose constructor changes with address_size).
 
+  hkind, gen_Dwarf_CIE_header, gen_EH_CIE_header, gen_Dwarf_FDE_header : list (string * hkind)
+        the construct trees of the three call frame header structs of DWARFStructs, walked on live
+        objects for every (little_endian, dwarf_format, address_size): field names in order and
+        what each field reads (initial length, offset = 4|8 bytes by dwarf_format, target address =
+        address_size bytes, fixed ints, LEB128, C string, If/IfThenElse on ctx.version probed
+        for version 0..255 and required to be a threshold).
+
 Fail closed: a non-int constant, a name that is not an identifier, a field constructor that is
 not one of construct's fixed ints / ULEB128 / SLEB128, or a mapping that depends on anything but
 address_size raises."""
@@ -71,6 +78,103 @@ def _field_kind(structs_by_cfg, basic):
         return (False, -1)
     raise CannotExpress('_eh_encoding_to_field[%#x] varies with the configuration in an unmodelled way: %r'
                         % (basic, kinds))
+
+
+
+class _Ctx(dict):
+    """a construct context that has only `version`; any other access fails the translation"""
+    def __getattr__(self, k):
+        try:
+            return self[k]
+        except KeyError:
+            raise CannotExpress('header predicate reads ctx.%s (only ctx.version is modelled)' % k)
+
+
+_FMT = {'B': ('HU', 1), 'H': ('HU', 2), 'L': ('HU', 4), 'Q': ('HU', 8),
+        'b': ('HS', 1), 'h': ('HS', 2), 'l': ('HS', 4), 'q': ('HS', 8)}
+
+
+def _hkind(cfg, c):
+    """the kind of one subconstruct on configuration cfg, as a nested tuple"""
+    import io
+    from elftools.common.construct_utils import ULEB128, SLEB128
+    from elftools.construct import Switch, FormatField, Value
+    tn = type(c).__name__
+    if tn == '_InitialLengthAdapter':
+        return ('HInitLen',)
+    if isinstance(c, ULEB128):
+        return ('HUleb',)
+    if isinstance(c, SLEB128):
+        return ('HSleb',)
+    if isinstance(c, FormatField):
+        fmt = c.packer.format
+        if isinstance(fmt, bytes):
+            fmt = fmt.decode()
+        if len(fmt) != 2 or fmt[0] != ('<' if cfg[0] else '>') or fmt[1] not in _FMT:
+            raise CannotExpress('field %r has struct format %r' % (c.name, fmt))
+        return _FMT[fmt[1]]
+    if isinstance(c, Value):
+        if c.func(_Ctx(version=0)) is not None:
+            raise CannotExpress('Value field %r is not the constant None' % c.name)
+        return ('HNone',)
+    if isinstance(c, Switch):
+        if set(c.cases.keys()) != {True, False}:
+            raise CannotExpress('Switch %r is not an If/IfThenElse' % c.name)
+        truth = [bool(c.keyfunc(_Ctx(version=v))) for v in range(256)]
+        n = truth.index(True) if True in truth else 256
+        if truth != [False] * n + [True] * (256 - n):
+            raise CannotExpress('predicate of %r is not a threshold on ctx.version' % c.name)
+        return ('HIfVer', n, _hkind(cfg, c.cases[True]), _hkind(cfg, c.cases[False]))
+    # CString is a macro (Rename over an adapter): recognise it by behaviour
+    try:
+        s = io.BytesIO(b'ab\x00cd')
+        if c.parse_stream(s) == b'ab' and s.tell() == 3:
+            return ('HCStr',)
+    except Exception:
+        pass
+    raise CannotExpress('header field %r is a %s: not expressible' % (c.name, tn))
+
+
+def _hkind_coq(k):
+    if k[0] in ('HU', 'HS'):
+        return '(%s %d)' % k
+    if k[0] == 'HIfVer':
+        return '(HIfVer %d %s %s)' % (k[1], _hkind_coq(k[2]), _hkind_coq(k[3]))
+    return k[0]
+
+
+def _header_layout(structs_by_cfg, attr):
+    """[(field name, kind)] of structs.<attr>, the same on every configuration except that a field may be
+    'offset' (4|8 bytes by dwarf_format) or 'target address' (address_size bytes)"""
+    per = {}
+    for cfg, st in structs_by_cfg.items():
+        s = getattr(st, attr)
+        if type(s).__name__ != 'Struct':
+            raise CannotExpress('%s is a %s' % (attr, type(s).__name__))
+        per[cfg] = [(c.name, _hkind(cfg, c)) for c in s.subcons]
+    names = None
+    for cfg, l in per.items():
+        ns = [n for n, _ in l]
+        if names is None:
+            names = ns
+        elif ns != names:
+            raise CannotExpress('%s: field names vary with the configuration' % attr)
+    out = []
+    for i, n in enumerate(names):
+        if not isinstance(n, str) or not IDENT.match(n):
+            raise CannotExpress('%s: field name %r' % (attr, n))
+        kinds = {cfg: per[cfg][i][1] for cfg in per}
+        vals = set(kinds.values())
+        if len(vals) == 1:
+            k = vals.pop()
+        elif all(kinds[cfg] == ('HU', 4 if cfg[1] == 32 else 8) for cfg in kinds):
+            k = ('HOffset',)
+        elif all(kinds[cfg] == ('HU', cfg[2]) for cfg in kinds):
+            k = ('HAddr',)
+        else:
+            raise CannotExpress('%s.%s varies with the configuration in an unmodelled way' % (attr, n))
+        out.append((n, k))
+    return out
 
 
 def generate():
@@ -137,5 +241,14 @@ def generate():
     out.append('        width 0 = LEB128, width -1 = Dwarf_target_addr (address_size bytes, unsigned) *)')
     out.append('Definition gen_eh_encoding_to_field : list (Z * (bool * Z)) := %s.' %
                F.lst(('(%s, (%s, %s))' % (F.z(b), F.boolean(s), F.z(w)) for b, (s, w) in fields), per_line=3))
+    out.append('')
+    out.append('(* ---- dwarf/structs.py _create_callframe_entry_headers: the construct trees, walked *)')
+    out.append('Inductive hkind : Type :=')
+    out.append('| HInitLen | HOffset | HAddr | HU (n : Z) | HS (n : Z) | HUleb | HSleb | HCStr | HNone')
+    out.append('| HIfVer (ge : Z) (then_ else_ : hkind).   (* ctx.version >= ge *)')
+    for attr in ('Dwarf_CIE_header', 'EH_CIE_header', 'Dwarf_FDE_header'):
+        lay = _header_layout(structs, attr)
+        out.append('Definition gen_%s : list (string * hkind) := %s.' %
+                   (attr, F.lst(('(%s, %s)' % (F.string(n), _hkind_coq(k)) for n, k in lay), per_line=2)))
     out.append('')
     return {'C06Tables.v': '\n'.join(out)}
